@@ -1497,6 +1497,13 @@ def gen_c12(tier, seed):
             else:
                 ops.append(r.choice(['qa:%x' % r.randrange(256), 'qb:%x' % r.randrange(256), 't:%x' % r.randrange(1 << 30), 'sv', 'gi', 'md:1', 'mu:1']))
         g.add(ops + ['ds'], 'duart-register-history')
+    # structured DUART receive / transmit histories (the C08 / C09 generators: bursts of arrivals, paced service, gated
+    # reads, fill levels up to FIFO + holding register + overrun, resets): none may panic
+    import cases as _cases
+    for flav, cnt in (('c08', 400 if tier == 'quick' else 20000), ('c09', 200 if tier == 'quick' else 10000)):
+        sub = _cases.gen_duart('zz', tier, seed + 31, cnt, cnt, flav)
+        for c in sub.cases:
+            g.add(c.split()[1:], 'duart-%s-history' % flav)
     # host-side bus reads at any address and width, and host input calls with any argument
     for i in range(300 if tier == 'quick' else 20000):
         ops = []
